@@ -41,7 +41,7 @@ type ReprCase struct {
 var barePatterns = []interface{}{"a", "?x", "1", 1.0, true, "?", []interface{}{[]interface{}{1.0}, []interface{}{2.0}}, "b", "??o", []interface{}{}, "", " x"}
 
 func genRepr(t *rapid.T) ReprCase {
-	o := sm.SpecOpts{Deterministic: true, Fail: 2, GuardFail: 1, Emit: true, UserErrorNode: true, Derive: true}
+	o := sm.SpecOpts{Deterministic: true, Fail: 2, GuardFail: 1, Emit: true, UserErrorNode: true, Derive: true, ArrayVar: true, IneqBound: true}
 	var a *sm.ASpec
 	if rapid.IntRange(0, 3).Draw(t, "lively") > 0 {
 		a = sm.GenLivelySpec(t, o)
@@ -51,6 +51,12 @@ func genRepr(t *rapid.T) ReprCase {
 	// patterns of every JSON shape
 	for _, name := range a.NodeNames() {
 		n := a.Nodes[name]
+		if n.BranchType != "message" {
+			// a bare variable under bindings branching would bind the
+			// whole bindings (variable-named keys included) and re-use
+			// them as a pattern: outside the matcher's supported fragment
+			continue
+		}
 		for bi := range n.Branches {
 			if n.Branches[bi].HasPattern && rapid.IntRange(0, 4).Draw(t, fmt.Sprintf("bare.%s.%d", name, bi)) == 0 {
 				n.Branches[bi].Pattern = jsongen.Copy(rapid.SampledFrom(barePatterns).Draw(t, fmt.Sprintf("barev.%s.%d", name, bi)))
@@ -202,6 +208,19 @@ func buildVariants(c ReprCase, known map[string]bool) ([]variant, bool) {
 		l, lerr = loadYAML(ys)
 		add("yaml", l, lerr)
 	}
+	// Go structures whose patterns use Go's own types below the top
+	// level ([]string, map[string]string, ints, match.Bindings), as a
+	// Go program building a spec would write them
+	s, _ = base()
+	for _, n := range s.Nodes {
+		if n.Branches == nil {
+			continue
+		}
+		for _, b := range n.Branches.Branches {
+			b.Pattern = goTyped(b.Pattern, 0)
+		}
+	}
+	add("go-typed-patterns", s, nil)
 	// compiled without force, as a first compilation
 	s, _ = base()
 	vs = append(vs, variant{name: "go-noforce", spec: s, err: s.Compile(context.Background(), ints, false)})
@@ -417,3 +436,62 @@ func TestC13Repr(t *testing.T) {
 }
 
 func confirmReloadFinding(t *testing.T) {}
+
+func FuzzC13Repr(f *testing.F) {
+	ev.Fuzz(f, ev.Opts{Property: "C13", Name: "repr"}, genRepr, checkRepr)
+}
+
+
+// goTyped rewrites a generic JSON value with the types a Go program
+// would naturally use below the top level.
+func goTyped(x interface{}, depth int) interface{} {
+	switch v := x.(type) {
+	case map[string]interface{}:
+		allStrings := len(v) > 0
+		for _, y := range v {
+			if _, ok := y.(string); !ok {
+				allStrings = false
+			}
+		}
+		if depth > 0 && allStrings {
+			m := map[string]string{}
+			for k, y := range v {
+				m[k] = y.(string)
+			}
+			return m
+		}
+		m := map[string]interface{}{}
+		for k, y := range v {
+			m[k] = goTyped(y, depth+1)
+		}
+		if depth > 0 {
+			return match.Bindings(m)
+		}
+		return m
+	case []interface{}:
+		allStrings := len(v) > 0
+		for _, y := range v {
+			if _, ok := y.(string); !ok {
+				allStrings = false
+			}
+		}
+		if depth > 0 && allStrings {
+			a := make([]string, len(v))
+			for i, y := range v {
+				a[i] = y.(string)
+			}
+			return a
+		}
+		a := make([]interface{}, len(v))
+		for i, y := range v {
+			a[i] = goTyped(y, depth+1)
+		}
+		return a
+	case float64:
+		if depth > 0 && v == float64(int(v)) {
+			return int(v)
+		}
+		return v
+	}
+	return x
+}
